@@ -62,83 +62,157 @@ Lemma no_quote v : needs_escape v = false -> forallb (fun b => negb (Ascii.eqb b
 Proof. induction v as [|c v IH]; intros H; [reflexivity|]. cbn [needs_escape existsb] in H.
   apply orb_false_iff in H as [Hc H]. apply orb_false_iff in Hc as [Hq Hb].
   cbn [forallb]. rewrite Hq. cbn [negb andb]. apply IH. exact H. Qed.
+Lemma quoted_after v Q : needs_escape v = false -> quoted_value (" " :: lit v ++ Q) = Some v.
+Proof. intros Hv. unfold quoted_value, lit. cbn [app after_char]. change (Ascii.eqb " " """") with false. change (Ascii.eqb """" """") with true.
+  cbv iota. rewrite (esc_id v Hv). rewrite <- app_assoc. cbn [app]. rewrite (after_char_app """" v Q (no_quote v Hv)). reflexivity. Qed.
 
-Lemma trim_start_sp c r : ws_len (c :: r) = 0 -> trim_start (" " :: c :: r) = c :: r.
-Proof. intros H. unfold trim_start. cbn [List.length trim_start_go].
-  change (ws_len (" " :: c :: r)) with 1. cbn [skipn]. rewrite H. reflexivity. Qed.
+(* what written_value does with the text found after the key *)
+Definition finish (rest : str) : option str :=
+  match strip1 "(" rest with
+  | Some group =>
+      match find_key (L "serialize") (cut_paren group) with
+      | Some r => match strip1 "=" r with Some x => quoted_value x | None => None end
+      | None => None end
+  | None => match strip1 "=" rest with Some x => quoted_value x | None => None end
+  end.
+Lemma written_value_finish tokens key : written_value tokens key = match find_key key tokens with Some rest => finish rest | None => None end.
+Proof. reflexivity. Qed.
 
-(* the three prefixes that occur: nothing, ( serialize, ( deserialize *)
-Definition pre_ok (pre : str) : Prop := pre = [] \/ pre = ppre true \/ pre = ppre false.
-Lemma ppre_ok b : pre_ok (ppre b).
-Proof. destruct b; [right; left|right; right]; reflexivity. Qed.
-Lemma kvt_not_all pre v post Q : pre_ok pre -> starts (L "_all") (trim_start (KVt pre v post ++ Q)) = false.
-Proof. unfold KVt. intros [-> | [-> | ->]]; cbn [ppre side_name L list_ascii_of_string app];
-  rewrite trim_start_sp by reflexivity; reflexivity. Qed.
-Lemma kvt_value pre v post Q : pre_ok pre -> needs_escape v = false ->
-  match after_char "=" (KVt pre v post ++ Q) with Some (_, r) => quoted_value (trim_start r) | None => None end = Some v.
-Proof. intros Hp Hv. unfold KVt.
-  assert (forallb (fun b => negb (Ascii.eqb b "=")) (pre ++ [" "]) = true) as Hne by (destruct Hp as [-> | [-> | ->]]; reflexivity).
-  replace ((pre ++ " " :: "=" :: " " :: lit v ++ post) ++ Q) with ((pre ++ [" "]) ++ "=" :: (" " :: lit v ++ post ++ Q))
-    by (rewrite <- !app_assoc; cbn [app]; rewrite <- !app_assoc; reflexivity).
-  rewrite (after_char_app "=" _ _ Hne). unfold lit. cbn [app]. rewrite trim_start_sp by reflexivity.
-  unfold quoted_value. cbn [after_char]. change (Ascii.eqb """" """") with true. cbv iota.
-  rewrite (esc_id v Hv). rewrite <- app_assoc. cbn [app]. rewrite (after_char_app """" v (post ++ Q) (no_quote v Hv)). reflexivity. Qed.
+Lemma finish_eq v Q : needs_escape v = false -> finish ("=" :: " " :: lit v ++ Q) = Some v.
+Proof. intros Hv. unfold finish. cbn [strip1]. change (Ascii.eqb "=" "(") with false. change (Ascii.eqb "=" "=") with true. cbv iota.
+  apply quoted_after. exact Hv. Qed.
+
+Definition key_ok (key : str) : Prop := nospace key = true /\ key <> [] /\ forall z, starts key ("," :: z) = false.
+Lemma key_ser_ok : key_ok (L "serialize").
+Proof. split; [reflexivity|]. split; [discriminate|intros z; reflexivity]. Qed.
+Lemma key_rename_ok : key_ok (L "rename").
+Proof. split; [reflexivity|]. split; [discriminate|intros z; reflexivity]. Qed.
+Lemma key_ra_ok : key_ok (L "rename_all").
+Proof. split; [reflexivity|]. split; [discriminate|intros z; reflexivity]. Qed.
+
+(* the entries between the parentheses *)
+Definition entries (l : list (bool * str)) : str := join SEP (map sd_text l).
+Lemma paren_text_entries l : paren_text l = "(" :: entries l ++ [")"].
+Proof. unfold paren_text, entries. rewrite (tok_string_sep sd_tokens _ sd_tokens_ne). reflexivity. Qed.
+
+Lemma lit_no_paren v : has_paren v = false -> forallb (fun b => negb (Ascii.eqb b ")")) (lit v) = true.
+Proof. intros H. unfold lit. cbn [forallb]. change (Ascii.eqb """" ")") with false. cbn [negb andb]. rewrite forallb_app. cbn [forallb].
+  change (Ascii.eqb """" ")") with false. cbn [negb andb]. rewrite andb_true_r.
+  induction v as [|c v IH]; [reflexivity|]. cbn [has_paren existsb] in H. apply orb_false_iff in H as [Hc H]. cbn [esc].
+  destruct (Ascii.eqb c """"); [cbn [forallb]; change (Ascii.eqb "\" ")") with false; change (Ascii.eqb """" ")") with false; cbn [negb andb]; apply IH; exact H|].
+  destruct (Ascii.eqb c "\"); [cbn [forallb]; change (Ascii.eqb "\" ")") with false; cbn [negb andb]; apply IH; exact H|].
+  cbn [forallb]. rewrite Hc. cbn [negb andb]. apply IH. exact H. Qed.
+Lemma sd_text_no_paren b v : has_paren v = false -> forallb (fun c => negb (Ascii.eqb c ")")) (sd_text (b, v)) = true.
+Proof. intros H. rewrite sd_text_eq. rewrite forallb_app. cbn [forallb]. rewrite (lit_no_paren v H).
+  destruct b; reflexivity. Qed.
+
+(* scanning the entries for the serialize key *)
+Lemma scan_ser_entry v : key_scan (L "serialize") false (sd_text (true, v)) = Some ("=" :: " " :: lit v).
+Proof. rewrite sd_text_eq. destruct key_ser_ok as (Hn & Hp & Hc). cbn [side_name].
+  rewrite (key_scan_here (L "serialize") Hn Hp Hc (" " :: "=" :: " " :: lit v) eq_refl). reflexivity. Qed.
+Lemma scan_de_entry w : key_occurs (L "serialize") (lit w) = false -> key_scan (L "serialize") false (sd_text (false, w)) = None.
+Proof. intros H. rewrite sd_text_eq. cbn [side_name]. unfold key_occurs, find_key in H.
+  change (key_scan (L "serialize") false (L "deserialize" ++ " " :: "=" :: " " :: lit w)) with (key_scan (L "serialize") false (lit w)).
+  destruct (key_scan (L "serialize") false (lit w)); [discriminate|reflexivity]. Qed.
+
+Lemma finish_paren l Q : sd_ok l = true -> p_bad l = false ->
+  (forall v, ser_of l = Some v -> needs_escape v = false) ->
+  finish ("(" :: entries l ++ ")" :: Q) = ser_of l.
+Proof. intros Hok Hbad Hesc. destruct key_ser_ok as (Hn & Hp & Hc). unfold finish. cbn [strip1]. change (Ascii.eqb "(" "(") with true. cbv iota.
+  assert (forall p, In p l -> has_paren (snd p) = false /\ (fst p = false -> key_occurs (L "serialize") (lit (snd p)) = false)) as Hp_ok.
+  { intros p Hin. pose proof (existsb_false_in _ _ Hbad p Hin) as H. cbn beta in H. apply orb_false_iff in H as [H1 H2].
+    split; [exact H1|]. intros Hf. rewrite Hf in H2. exact H2. }
+  assert (cut_paren (entries l ++ ")" :: Q) = entries l) as Hcut.
+  { unfold cut_paren. rewrite (after_char_app ")" (entries l) Q); [reflexivity|]. unfold entries.
+    destruct l as [|[b1 v1] [|[b2 v2] [|x y]]]; try discriminate.
+    - cbn [map join]. apply sd_text_no_paren. apply (Hp_ok (b1, v1)). left. reflexivity.
+    - cbn [map]. rewrite join_cons_cons. cbn [app join]. rewrite forallb_app. cbn [forallb].
+      rewrite (sd_text_no_paren b1 v1), (sd_text_no_paren b2 v2); [reflexivity| |]; [apply (Hp_ok (b2, v2)); right; left; reflexivity|apply (Hp_ok (b1, v1)); left; reflexivity]. }
+  rewrite Hcut. unfold find_key, entries.
+  destruct l as [|[b1 v1] [|[b2 v2] [|x y]]]; try discriminate.
+  - cbn [map join]. destruct b1; cbn [ser_of].
+    + rewrite scan_ser_entry. cbn [strip1]. change (Ascii.eqb "=" "=") with true. cbv iota.
+      pose proof (quoted_after v1 [] (Hesc v1 eq_refl)) as Hq. rewrite app_nil_r in Hq. exact Hq.
+    + rewrite scan_de_entry; [reflexivity|]. apply (Hp_ok (false, v1)); [left; reflexivity|reflexivity].
+  - cbn [map]. rewrite join_cons_cons. cbn [app join]. rewrite (key_scan_sep (L "serialize") Hn Hp Hc).
+    cbn [sd_ok] in Hok. destruct b1; cbn [ser_of].
+    + rewrite scan_ser_entry. cbn [app strip1]. change (Ascii.eqb "=" "=") with true. cbv iota.
+      apply quoted_after. apply Hesc. reflexivity.
+    + rewrite scan_de_entry by (apply (Hp_ok (false, v1)); [left; reflexivity|reflexivity]).
+      destruct b2; [|discriminate]. rewrite scan_ser_entry. cbn [strip1]. change (Ascii.eqb "=" "=") with true. cbv iota.
+      pose proof (quoted_after v2 [] (Hesc v2 eq_refl)) as Hq. rewrite app_nil_r in Hq. exact Hq. Qed.
 
 (* ------------------------------------------------------------------ parse_rename on one attribute *)
-Lemma parse_rename_go_S f tokens : parse_rename_go (S f) tokens =
-  match after_first (L "rename") tokens with
-  | None => None
-  | Some ar => if starts (L "_all") (trim_start ar) then parse_rename_go f (skipn 4 (trim_start ar))
-               else match after_char "=" ar with Some (_, r) => quoted_value (trim_start r) | None => None end
-  end.
-Proof. unfold after_first. cbn [parse_rename_go]. destruct (find_sub (L "rename") tokens) as [[a b]|]; reflexivity. Qed.
+Definition rename_free (m : meta) : Prop := is_rename m = false -> key_occurs (L "rename") (meta_text m) = false.
 
-Definition rename_free (m : meta) : Prop := is_rename m = false -> contains (L "rename") (meta_text m) = false.
+Lemma first_rename_one m : first_rename [m] = match m with MRename v => Some v | MRenameP l => ser_of l | _ => None end.
+Proof. destruct m as [v|l| |n o]; try reflexivity. cbn [first_rename]. destruct (ser_of l); reflexivity. Qed.
 
-(* the text of a rename meta: key, then a tail from which the scanner reads the head value *)
-Lemma rename_text m : is_rename m = true -> other_ok m = true ->
-  exists pre v post, pre_ok pre /\ meta_text m = L "rename" ++ KVt pre v post /\ head_rename [m] = Some v.
-Proof. destruct m as [v|l| |n o]; try discriminate; intros _ Hok.
-  - exists [], v, []. split; [left; reflexivity|]. split; [apply meta_text_rename|reflexivity].
-  - destruct l as [|[b v] r]; [discriminate|]. exists (ppre b), v, (ptail r). split; [apply ppre_ok|].
-    split; [apply meta_text_renameP|reflexivity]. Qed.
+(* the text of a rename meta: the key is found at its start and the rest yields the serialize name *)
+Lemma rename_scan m : is_rename m = true -> other_ok m = true ->
+  (match m with MRenameP l => p_bad l = false | _ => True end) ->
+  (forall v, first_rename [m] = Some v -> needs_escape v = false) ->
+  exists r, key_scan (L "rename") false (meta_text m) = Some r /\ forall Q, finish (r ++ Q) = first_rename [m].
+Proof. destruct key_rename_ok as (Hn & Hp & Hc). destruct m as [v|l| |n o]; try discriminate; intros _ Hok Hbad Hesc.
+  - exists ("=" :: " " :: lit v). split.
+    + rewrite meta_text_rename. unfold KVt. cbn [app]. rewrite app_nil_r. apply (key_scan_here (L "rename") Hn Hp Hc (" " :: "=" :: " " :: lit v) eq_refl).
+    + intros Q. cbn [app]. apply finish_eq. apply Hesc. reflexivity.
+  - exists ("(" :: entries l ++ [")"]). split.
+    + unfold meta_text, tok_string. cbn [meta_tokens tok_go tok_text app]. rewrite app_nil_r, paren_text_entries.
+      apply (key_scan_here (L "rename") Hn Hp Hc (" " :: "(" :: entries l ++ [")"]) eq_refl).
+    + intros Q. rewrite first_rename_one. cbn [app]. rewrite <- app_assoc. cbn [app]. apply finish_paren; [exact Hok|exact Hbad|].
+      intros v Hv. apply Hesc. rewrite first_rename_one. exact Hv. Qed.
 
-Lemma head_rename_split g : forallb other_ok g = true ->
-  (head_rename g = None /\ forall m, In m g -> is_rename m = false) \/
-  (exists pre m post, g = pre ++ m :: post /\ is_rename m = true /\ head_rename g = head_rename [m] /\
-                      forall x, In x pre -> is_rename x = false).
-Proof. induction g as [|m g IH]; intros Hok; [left; split; [reflexivity|intros m []]|].
-  cbn [forallb] in Hok. apply andb_true_iff in Hok as [Hm Hok]. specialize (IH Hok).
-  destruct (is_rename m) eqn:Er.
-  - right. exists [], m, g. split; [reflexivity|]. split; [exact Er|]. split; [|intros x []].
-    destruct m as [v|l| |n o]; try discriminate; [reflexivity|]. destruct l as [|[b v] r]; [discriminate|reflexivity].
-  - assert (head_rename (m :: g) = head_rename g) as Hh by (destruct m; try discriminate; reflexivity).
-    destruct IH as [[Hn Ha]|[pre [m' [post [-> [Hr [Hf Ha]]]]]]].
-    + left. split; [rewrite Hh; exact Hn|]. intros x [<-|Hin]; [exact Er|auto].
-    + right. exists (m :: pre), m', post. split; [reflexivity|]. split; [exact Hr|]. split; [rewrite Hh; exact Hf|].
-      intros x [<-|Hin]; [exact Er|auto]. Qed.
+Lemma rename_split g :
+  (forall m, In m g -> is_rename m = false) \/
+  (exists pre m post, g = pre ++ m :: post /\ is_rename m = true /\ forall x, In x pre -> is_rename x = false).
+Proof. induction g as [|m g IH]; [left; intros m []|]. destruct (is_rename m) eqn:Er.
+  - right. exists [], m, g. split; [reflexivity|]. split; [exact Er|intros x []].
+  - destruct IH as [Ha|[pre [m' [post [-> [Hr Ha]]]]]].
+    + left. intros x [<-|Hin]; [exact Er|auto].
+    + right. exists (m :: pre), m', post. split; [reflexivity|]. split; [exact Hr|]. intros x [<-|Hin]; [exact Er|auto]. Qed.
+Lemma first_rename_none g : (forall m, In m g -> is_rename m = false) -> first_rename g = None.
+Proof. induction g as [|m g IH]; intros H; [reflexivity|]. pose proof (H m (or_introl eq_refl)) as Hm.
+  destruct m as [v|l| |n o]; try discriminate; cbn [first_rename]; apply IH; intros x Hx; apply H; right; exact Hx. Qed.
+Lemma first_rename_app a b : first_rename (a ++ b) = match first_rename a with Some v => Some v | None => first_rename b end.
+Proof. induction a as [|m a IH]; [reflexivity|]. destruct m as [v|l| |n o]; cbn [app first_rename]; auto.
+  destruct (ser_of l); auto. Qed.
+Lemma count_renames_app a b : count_renames (a ++ b) = count_renames a + count_renames b.
+Proof. unfold count_renames. rewrite filter_app, app_length. reflexivity. Qed.
+Lemma count_zero_none g : count_renames g = 0 -> forall m, In m g -> is_rename m = false.
+Proof. induction g as [|x g IH]; intros H m Hin; [destruct Hin|]. unfold count_renames in *. cbn [filter] in H.
+  destruct (is_rename x) eqn:Ex; [discriminate|]. destruct Hin as [<-|Hin]; [exact Ex|apply IH; assumption]. Qed.
+Lemma count_one m : is_rename m = true -> count_renames [m] = 1.
+Proof. intros H. unfold count_renames. cbn [filter]. rewrite H. reflexivity. Qed.
 
-Lemma pat_rename_ok : nospace (L "rename") = true /\ L "rename" <> [] /\ contains (L "rename") [","] = false.
-Proof. split; [reflexivity|]. split; [discriminate|reflexivity]. Qed.
-
-(* the scanner returns the head value of the first rename meta *)
+(* the scanner returns the serialize name of the rename meta of the attribute *)
 Lemma parse_rename_group g :
-  forallb other_ok g = true ->
+  forallb other_ok g = true -> count_renames g <= 1 ->
   (forall m, In m g -> rename_free m) ->
-  (forall v, head_rename g = Some v -> needs_escape v = false) ->
-  parse_rename (group_string g) = head_rename g.
-Proof. intros Hok Hfree Hesc. destruct pat_rename_ok as (Hn & Hp & Hc).
-  unfold parse_rename. rewrite parse_rename_go_S, group_string_join.
-  destruct (head_rename_split g Hok) as [[Hnone Ha]|[pre [m [post [Hg [Hr [Hf Ha]]]]]]].
-  - rewrite (after_first_join_none _ Hn Hp Hc).
-    + symmetry. exact Hnone.
-    + intros x Hx. apply in_map_iff in Hx as [m [<- Hm]]. apply (Hfree m Hm). apply Ha. exact Hm.
-  - subst g. assert (other_ok m = true) as Hmok by (apply (proj1 (forallb_forall _ _) Hok); apply in_or_app; right; left; reflexivity).
-    destruct (rename_text m Hr Hmok) as (p & v & q & Hpre & Htext & Hv).
-    rewrite map_app. cbn [map]. rewrite (after_first_join _ Hn Hp Hc (map meta_text pre) _ (KVt p v q) (map meta_text post)).
-    + rewrite (kvt_not_all p v q _ Hpre), (kvt_value p v q _ Hpre); [rewrite Hf, Hv; reflexivity|]. apply Hesc. rewrite Hf. exact Hv.
-    + intros x Hx. apply in_map_iff in Hx as [m0 [<- Hm]]. apply (Hfree m0); [apply in_or_app; left; exact Hm|]. apply Ha. exact Hm.
-    + exact Htext. Qed.
+  (forall l, In (MRenameP l) g -> p_bad l = false) ->
+  (forall v, first_rename g = Some v -> needs_escape v = false) ->
+  parse_rename (group_string g) = first_rename g.
+Proof. intros Hok Hcnt Hfree Hbad Hesc. destruct key_rename_ok as (Hn & Hp & Hc).
+  unfold parse_rename. rewrite written_value_finish, group_string_join. unfold find_key.
+  destruct (rename_split g) as [Ha|[pre [m [post [Hg [Hr Ha]]]]]].
+  - rewrite (key_scan_join_none _ Hn Hp Hc).
+    + symmetry. apply first_rename_none. exact Ha.
+    + intros x Hx. apply in_map_iff in Hx as [m [<- Hm]]. pose proof (Hfree m Hm (Ha m Hm)) as H. unfold key_occurs, find_key in H.
+      destruct (key_scan (L "rename") false (meta_text m)); [discriminate|reflexivity].
+  - subst g. assert (In m (pre ++ m :: post)) as Hin by (apply in_or_app; right; left; reflexivity).
+    assert (first_rename (pre ++ m :: post) = first_rename [m]) as Hfm.
+    { rewrite first_rename_app, (first_rename_none pre Ha). change (m :: post) with ([m] ++ post). rewrite first_rename_app.
+      destruct (first_rename [m]); [reflexivity|]. apply first_rename_none. apply count_zero_none.
+      rewrite count_renames_app in Hcnt. change (m :: post) with ([m] ++ post) in Hcnt. rewrite count_renames_app, (count_one m Hr) in Hcnt. lia. }
+    destruct (rename_scan m Hr (proj1 (forallb_forall _ _) Hok m Hin)) as (r & Hscan & Hfin).
+    + destruct m; try exact I. apply Hbad. exact Hin.
+    + intros v Hv. apply Hesc. rewrite Hfm. exact Hv.
+    + rewrite map_app. cbn [map]. rewrite (key_scan_join _ Hn Hp Hc (map meta_text pre) _ r (map meta_text post)).
+      * rewrite Hfin. symmetry. exact Hfm.
+      * intros x Hx. apply in_map_iff in Hx as [m0 [<- Hm]].
+        pose proof (Hfree m0 (in_or_app _ _ _ (or_introl Hm)) (Ha m0 Hm)) as H. unfold key_occurs, find_key in H.
+        destruct (key_scan (L "rename") false (meta_text m0)); [discriminate|reflexivity].
+      * exact Hscan. Qed.
 
 (* ------------------------------------------------------------------ the skip test on one attribute *)
 Lemma pat_skip_ok : nospace (L "skip") = true /\ L "skip" <> [] /\ contains (L "skip") [","] = false.
@@ -168,26 +242,21 @@ Proof. revert rn sk. induction gs as [|ts gs IH]; intros rn sk; cbn [field_attrs
   - rewrite orb_false_r. reflexivity.
   - rewrite IH. f_equal. destruct (field_skip ts), sk; reflexivity. Qed.
 
-Lemma head_rename_app a b : head_rename (a ++ b) = match head_rename a with Some v => Some v | None => head_rename b end.
-Proof. induction a as [|m a IH]; [reflexivity|]. destruct m as [v|l| |n o]; cbn [app head_rename]; auto.
-  destruct (head_val l); auto. Qed.
-Lemma count_renames_app a b : count_renames (a ++ b) = count_renames a + count_renames b.
-Proof. unfold count_renames. rewrite filter_app, app_length. reflexivity. Qed.
-Lemma head_rename_count g v : head_rename g = Some v -> 1 <= count_renames g.
-Proof. induction g as [|m g IH]; [discriminate|]. destruct m as [w|l| |n o]; cbn [head_rename]; intros H;
+Lemma first_rename_count g v : first_rename g = Some v -> 1 <= count_renames g.
+Proof. induction g as [|m g IH]; [discriminate|]. destruct m as [w|l| |n o]; cbn [first_rename]; intros H;
   unfold count_renames in *; cbn [filter is_rename List.length]; try lia; apply IH in H; exact H. Qed.
 
 Lemma last_rename_groups gs rn :
-  (forall g, In g gs -> parse_rename (group_string g) = head_rename g) ->
+  (forall g, In g gs -> parse_rename (group_string g) = first_rename g) ->
   count_renames (concat gs) <= 1 ->
-  last_rename (map group_string gs) rn = match head_rename (concat gs) with Some v => Some v | None => rn end.
+  last_rename (map group_string gs) rn = match first_rename (concat gs) with Some v => Some v | None => rn end.
 Proof. revert rn. induction gs as [|g gs IH]; intros rn Hp Hc; [reflexivity|].
   cbn [map last_rename concat]. rewrite (Hp g (or_introl eq_refl)).
   cbn [concat] in Hc. rewrite count_renames_app in Hc.
   rewrite IH; [|intros g' Hg'; apply Hp; right; exact Hg'|lia].
-  rewrite head_rename_app. destruct (head_rename g) as [v|] eqn:Eg; [|reflexivity].
-  destruct (head_rename (concat gs)) as [w|] eqn:Ew; [|reflexivity].
-  apply head_rename_count in Eg. apply head_rename_count in Ew. lia. Qed.
+  rewrite first_rename_app. destruct (first_rename g) as [v|] eqn:Eg; [|reflexivity].
+  destruct (first_rename (concat gs)) as [w|] eqn:Ew; [|reflexivity].
+  apply first_rename_count in Eg. apply first_rename_count in Ew. lia. Qed.
 
 (* per-item facts delivered by the domain and the complement of the classes *)
 Definition item_rename_free (it : item) : Prop := forall m, In m (concat (it_attrs it)) -> rename_free m.
@@ -198,34 +267,27 @@ Proof. intros H Hg. apply forallb_forall. intros x Hx. apply (proj1 (forallb_for
 Lemma item_rename it :
   forallb other_ok (concat (it_attrs it)) = true ->
   item_rename_free it ->
-  (forall v, head_rename (concat (it_attrs it)) = Some v -> needs_escape v = false) ->
+  (forall l, In (MRenameP l) (concat (it_attrs it)) -> p_bad l = false) ->
+  (forall v, rename_of it = Some v -> needs_escape v = false) ->
   count_renames (concat (it_attrs it)) <= 1 ->
-  fst (field_attrs (map group_string (it_attrs it))) = head_rename (concat (it_attrs it)).
-Proof. intros Hok Hfree Hesc Hc. unfold field_attrs. rewrite field_attrs_go_spec. cbn [fst].
-  rewrite last_rename_groups; [destruct (head_rename (concat (it_attrs it))); reflexivity| |exact Hc].
-  intros g Hg. apply parse_rename_group.
-  - apply (forallb_concat_in _ _ _ Hok Hg).
+  fst (field_attrs (map group_string (it_attrs it))) = rename_of it.
+Proof. intros Hok Hfree Hbad Hesc Hc. unfold field_attrs. rewrite field_attrs_go_spec. cbn [fst].
+  rewrite last_rename_groups; [unfold rename_of; destruct (first_rename (concat (it_attrs it))); reflexivity| |exact Hc].
+  intros g Hg.
+  assert (count_renames g <= 1) as Hcg.
+  { apply in_split in Hg as [l1 [l2 Hl]]. rewrite Hl in Hc. rewrite concat_app in Hc. cbn [concat] in Hc. rewrite !count_renames_app in Hc. lia. }
+  apply parse_rename_group; [apply (forallb_concat_in _ _ _ Hok Hg)|exact Hcg| | |].
   - intros m Hm. apply Hfree. apply in_concat. exists g. split; assumption.
+  - intros l Hl. apply Hbad. apply in_concat. exists g. split; assumption.
   - intros v Hv.
-    (* the head rename of g is the only rename of the item *)
-    assert (head_rename (concat (it_attrs it)) = Some v) as Hr.
-    { apply in_split in Hg as [l1 [l2 Hl]]. rewrite Hl in *. rewrite concat_app. cbn [concat].
-      rewrite head_rename_app. destruct (head_rename (concat l1)) as [u|] eqn:E1.
+    (* the rename of g is the only rename of the item *)
+    assert (rename_of it = Some v) as Hr.
+    { unfold rename_of. apply in_split in Hg as [l1 [l2 Hl]]. rewrite Hl in *. rewrite concat_app. cbn [concat].
+      rewrite first_rename_app. destruct (first_rename (concat l1)) as [u|] eqn:E1.
       - exfalso. rewrite concat_app in Hc. cbn [concat] in Hc. rewrite !count_renames_app in Hc.
-        apply head_rename_count in E1. apply head_rename_count in Hv. lia.
-      - rewrite head_rename_app, Hv. reflexivity. }
+        apply first_rename_count in E1. apply first_rename_count in Hv. lia.
+      - rewrite first_rename_app, Hv. reflexivity. }
     apply Hesc. exact Hr. Qed.
-
-(* outside C06-8 the head value is the serialize name *)
-Lemma head_is_ser l : sd_ok l = true -> sd_bad l = false -> head_val l = ser_of l.
-Proof. unfold sd_bad. intros _ H. apply negb_false_iff in H. destruct (head_val l) as [a|], (ser_of l) as [b|]; try discriminate; [|reflexivity].
-  cbn [opt_str_eqb] in H. apply str_eqb_eq in H. subst. reflexivity. Qed.
-Lemma head_rename_is_first g : forallb other_ok g = true ->
-  (forall l, In (MRenameP l) g -> sd_bad l = false) -> head_rename g = first_rename g.
-Proof. induction g as [|m g IH]; intros Hok Hsd; [reflexivity|]. cbn [forallb] in Hok. apply andb_true_iff in Hok as [Hm Hok].
-  assert (head_rename g = first_rename g) as Hg by (apply IH; [exact Hok|intros l Hl; apply Hsd; right; exact Hl]).
-  destruct m as [v|l| |n o]; cbn [head_rename first_rename]; try exact Hg; [reflexivity|].
-  cbn [other_ok] in Hm. rewrite (head_is_ser l Hm (Hsd l (or_introl eq_refl))), Hg. reflexivity. Qed.
 
 Lemma item_skip_true it : has_skip it = true -> existsb group_skip_seen (it_attrs it) = true ->
   snd (field_attrs (map group_string (it_attrs it))) = true.
@@ -240,117 +302,109 @@ Proof. intros Hs H. unfold field_attrs. rewrite field_attrs_go_spec. cbn [snd or
   rewrite (existsb_false_in _ _ H g Hin) in Hg. discriminate. Qed.
 
 (* ------------------------------------------------------------------ container attributes *)
-Lemma pat_ra_ok : nospace (L "rename_all") = true /\ L "rename_all" <> [] /\ contains (L "rename_all") [","] = false.
-Proof. split; [reflexivity|]. split; [discriminate|reflexivity]. Qed.
-
-Lemma rule_value_plain v : valid_rule v = true -> needs_escape v = false.
+Lemma rule_value_plain v : valid_rule v = true ->
+  needs_escape v = false /\ has_paren v = false /\ key_occurs (L "serialize") (lit v) = false.
 Proof. unfold valid_rule, rule_of_str. intros H.
   repeat match type of H with
-  | match (if str_eqb v ?s then _ else _) with _ => _ end = _ => destruct (str_eqb v s) eqn:E; [apply str_eqb_eq in E; subst v; reflexivity|clear E]
+  | match (if str_eqb v ?s then _ else _) with _ => _ end = _ => destruct (str_eqb v s) eqn:E; [apply str_eqb_eq in E; subst v; repeat split; reflexivity|clear E]
   end. discriminate. Qed.
 
-Definition ra_free (m : cmeta) : Prop := is_ra m = false -> contains (L "rename_all") (cmeta_text m) = false.
+Definition ra_free (m : cmeta) : Prop := is_ra m = false -> key_occurs (L "rename_all") (cmeta_text m) = false.
 
-Lemma ra_text m : is_ra m = true -> cmeta_ok m = true ->
-  exists pre v post, pre_ok pre /\ cmeta_text m = L "rename_all" ++ KVt pre v post /\ head_rename_all [m] = Some v /\ valid_rule v = true.
-Proof. destruct m as [v|l|n|n w]; try discriminate; intros _ Hok.
-  - exists [], v, []. split; [left; reflexivity|]. split; [apply cmeta_text_rename_all|]. split; [reflexivity|exact Hok].
-  - cbn [cmeta_ok] in Hok. apply andb_true_iff in Hok as [Hsd Hv]. destruct l as [|[b v] r]; [discriminate|].
-    exists (ppre b), v, (ptail r). split; [apply ppre_ok|]. split; [apply cmeta_text_rename_allP|]. split; [reflexivity|].
-    cbn [forallb snd] in Hv. apply andb_true_iff in Hv as [Hv _]. exact Hv. Qed.
+Lemma first_ra_one m : first_rename_all [m] = match m with CRenameAll v => Some v | CRenameAllP l => ser_of l | _ => None end.
+Proof. destruct m as [v|l|n|n w]; try reflexivity. cbn [first_rename_all]. destruct (ser_of l); reflexivity. Qed.
 
-Lemma head_ra_split g : forallb cmeta_ok g = true ->
-  (head_rename_all g = None /\ forall m, In m g -> is_ra m = false) \/
-  (exists pre m post, g = pre ++ m :: post /\ is_ra m = true /\ head_rename_all g = head_rename_all [m] /\
-                      forall x, In x pre -> is_ra x = false).
-Proof. induction g as [|m g IH]; intros Hok; [left; split; [reflexivity|intros m []]|].
-  cbn [forallb] in Hok. apply andb_true_iff in Hok as [Hm Hok]. specialize (IH Hok).
-  destruct (is_ra m) eqn:Er.
-  - right. exists [], m, g. split; [reflexivity|]. split; [exact Er|]. split; [|intros x []].
-    destruct m as [v|l|n|n w]; try discriminate; [reflexivity|].
-    cbn [cmeta_ok] in Hm. apply andb_true_iff in Hm as [Hsd _]. destruct l as [|[b v] r]; [discriminate|reflexivity].
-  - assert (head_rename_all (m :: g) = head_rename_all g) as Hh by (destruct m; try discriminate; reflexivity).
-    destruct IH as [[Hn Ha]|[pre [m' [post [-> [Hr [Hf Ha]]]]]]].
-    + left. split; [rewrite Hh; exact Hn|]. intros x [<-|Hin]; [exact Er|auto].
-    + right. exists (m :: pre), m', post. split; [reflexivity|]. split; [exact Hr|]. split; [rewrite Hh; exact Hf|].
-      intros x [<-|Hin]; [exact Er|auto]. Qed.
+Lemma ser_of_in l v : ser_of l = Some v -> In (true, v) l.
+Proof. induction l as [|[b w] l IH]; [discriminate|]. destruct b; cbn [ser_of]; intros H; [injection H as <-; left; reflexivity|right; apply IH; exact H]. Qed.
 
-Lemma parse_rename_all_group g : forallb cmeta_ok g = true -> (forall m, In m g -> ra_free m) ->
-  parse_rename_all (cgroup_string g) = match head_rename_all g with Some v => rule_of_str v | None => None end.
-Proof. intros Hok Hfree. destruct pat_ra_ok as (Hn & Hp & Hc).
-  unfold parse_rename_all.
-  assert (forall s, match find_sub (L "rename_all") s with
-                    | Some (_, r0) => match after_char "=" r0 with
-                                      | Some (_, r) => match quoted_value (trim_start r) with Some v => rule_of_str v | None => None end
-                                      | None => None end
-                    | None => None end =
-                    match after_first (L "rename_all") s with
-                    | Some r0 => match after_char "=" r0 with
-                                 | Some (_, r) => match quoted_value (trim_start r) with Some v => rule_of_str v | None => None end
-                                 | None => None end
-                    | None => None end) as Hrw.
-  { intros s. unfold after_first. destruct (find_sub (L "rename_all") s) as [[a b]|]; reflexivity. }
-  rewrite Hrw. clear Hrw. rewrite cgroup_string_join.
-  destruct (head_ra_split g Hok) as [[Hnone Ha]|[pre [m [post [Hg [Hr [Hf Ha]]]]]]].
-  - rewrite (after_first_join_none _ Hn Hp Hc).
-    + rewrite Hnone. reflexivity.
-    + intros x Hx. apply in_map_iff in Hx as [m [<- Hm]]. apply (Hfree m Hm). apply Ha. exact Hm.
-  - subst g. assert (cmeta_ok m = true) as Hmok by (apply (proj1 (forallb_forall _ _) Hok); apply in_or_app; right; left; reflexivity).
-    destruct (ra_text m Hr Hmok) as (p & v & q & Hpre & Htext & Hv & Hvalid).
-    rewrite map_app. cbn [map]. rewrite (after_first_join _ Hn Hp Hc (map cmeta_text pre) _ (KVt p v q) (map cmeta_text post)).
-    + rewrite Hf, Hv.
-      pose proof (kvt_value p v q (tail_text (map cmeta_text post)) Hpre (rule_value_plain v Hvalid)) as Hkv.
-      destruct (after_char "=" (KVt p v q ++ tail_text (map cmeta_text post))) as [[x y]|]; [|discriminate].
-      rewrite Hkv. reflexivity.
-    + intros x Hx. apply in_map_iff in Hx as [m0 [<- Hm]]. apply (Hfree m0); [apply in_or_app; left; exact Hm|]. apply Ha. exact Hm.
-    + exact Htext. Qed.
+Lemma ra_scan m : is_ra m = true -> cmeta_ok m = true ->
+  exists r, key_scan (L "rename_all") false (cmeta_text m) = Some r /\ forall Q, finish (r ++ Q) = first_rename_all [m].
+Proof. destruct key_ra_ok as (Hn & Hp & Hc). destruct m as [v|l|n|n w]; try discriminate; intros _ Hok.
+  - exists ("=" :: " " :: lit v). split.
+    + rewrite cmeta_text_rename_all. unfold KVt. cbn [app]. rewrite app_nil_r. apply (key_scan_here (L "rename_all") Hn Hp Hc (" " :: "=" :: " " :: lit v) eq_refl).
+    + intros Q. cbn [app]. apply finish_eq. apply (rule_value_plain v Hok).
+  - cbn [cmeta_ok] in Hok. apply andb_true_iff in Hok as [Hsd Hv]. exists ("(" :: entries l ++ [")"]). split.
+    + unfold cmeta_text, tok_string. cbn [cmeta_tokens tok_go tok_text app]. rewrite app_nil_r, paren_text_entries.
+      apply (key_scan_here (L "rename_all") Hn Hp Hc (" " :: "(" :: entries l ++ [")"]) eq_refl).
+    + intros Q. rewrite first_ra_one. cbn [app]. rewrite <- app_assoc. cbn [app]. apply finish_paren; [exact Hsd| |].
+      * unfold p_bad. destruct (existsb _ l) eqn:E; [|reflexivity]. apply existsb_exists in E as [p [Hin Hp']].
+        destruct (rule_value_plain (snd p) (proj1 (forallb_forall _ _) Hv p Hin)) as (_ & H2 & H3). rewrite H2, H3 in Hp'.
+        destruct (fst p); discriminate.
+      * intros v Hsv. apply ser_of_in in Hsv. apply (rule_value_plain v (proj1 (forallb_forall _ _) Hv (true, v) Hsv)). Qed.
 
-Lemma head_ra_app a b : head_rename_all (a ++ b) = match head_rename_all a with Some v => Some v | None => head_rename_all b end.
-Proof. induction a as [|m a IH]; [reflexivity|]. destruct m as [v|l|n|n w]; cbn [app head_rename_all]; auto.
-  destruct (head_val l); auto. Qed.
+Lemma ra_split g :
+  (forall m, In m g -> is_ra m = false) \/
+  (exists pre m post, g = pre ++ m :: post /\ is_ra m = true /\ forall x, In x pre -> is_ra x = false).
+Proof. induction g as [|m g IH]; [left; intros m []|]. destruct (is_ra m) eqn:Er.
+  - right. exists [], m, g. split; [reflexivity|]. split; [exact Er|intros x []].
+  - destruct IH as [Ha|[pre [m' [post [-> [Hr Ha]]]]]].
+    + left. intros x [<-|Hin]; [exact Er|auto].
+    + right. exists (m :: pre), m', post. split; [reflexivity|]. split; [exact Hr|]. intros x [<-|Hin]; [exact Er|auto]. Qed.
+Lemma first_ra_none g : (forall m, In m g -> is_ra m = false) -> first_rename_all g = None.
+Proof. induction g as [|m g IH]; intros H; [reflexivity|]. pose proof (H m (or_introl eq_refl)) as Hm.
+  destruct m as [v|l|n|n w]; try discriminate; cbn [first_rename_all]; apply IH; intros x Hx; apply H; right; exact Hx. Qed.
+Lemma first_ra_app a b : first_rename_all (a ++ b) = match first_rename_all a with Some v => Some v | None => first_rename_all b end.
+Proof. induction a as [|m a IH]; [reflexivity|]. destruct m as [v|l|n|n w]; cbn [app first_rename_all]; auto.
+  destruct (ser_of l); auto. Qed.
 Lemma count_ra_app a b : count_rename_all (a ++ b) = count_rename_all a + count_rename_all b.
 Proof. unfold count_rename_all. rewrite filter_app, app_length. reflexivity. Qed.
-Lemma head_ra_count g v : head_rename_all g = Some v -> 1 <= count_rename_all g.
-Proof. induction g as [|m g IH]; [discriminate|]. destruct m as [w|l|n|n w]; cbn [head_rename_all]; intros H;
+Lemma count_ra_zero_none g : count_rename_all g = 0 -> forall m, In m g -> is_ra m = false.
+Proof. induction g as [|x g IH]; intros H m Hin; [destruct Hin|]. unfold count_rename_all in *. cbn [filter] in H.
+  destruct (is_ra x) eqn:Ex; [discriminate|]. destruct Hin as [<-|Hin]; [exact Ex|apply IH; assumption]. Qed.
+Lemma first_ra_count g v : first_rename_all g = Some v -> 1 <= count_rename_all g.
+Proof. induction g as [|m g IH]; [discriminate|]. destruct m as [w|l|n|n w]; cbn [first_rename_all]; intros H;
   unfold count_rename_all in *; cbn [filter is_ra List.length]; try lia; apply IH in H; exact H. Qed.
-Lemma head_ra_valid g v : forallb cmeta_ok g = true -> head_rename_all g = Some v -> valid_rule v = true.
+Lemma first_ra_valid g v : forallb cmeta_ok g = true -> first_rename_all g = Some v -> valid_rule v = true.
 Proof. induction g as [|m g IH]; [discriminate|]. cbn [forallb]. intros H Hf. apply andb_true_iff in H as [Hm H].
-  destruct m as [w|l|n|n w]; cbn [head_rename_all] in Hf; try (apply IH; assumption).
+  destruct m as [w|l|n|n w]; cbn [first_rename_all] in Hf; try (apply IH; assumption).
   - injection Hf as <-. exact Hm.
-  - cbn [cmeta_ok] in Hm. apply andb_true_iff in Hm as [_ Hv]. destruct l as [|[b x] r]; cbn [head_val] in Hf; [apply IH; assumption|].
-    injection Hf as <-. cbn [forallb snd] in Hv. apply andb_true_iff in Hv as [Hv _]. exact Hv. Qed.
+  - cbn [cmeta_ok] in Hm. apply andb_true_iff in Hm as [_ Hv]. destruct (ser_of l) as [x|] eqn:Es; [|apply IH; assumption].
+    injection Hf as <-. apply ser_of_in in Es. exact (proj1 (forallb_forall _ _) Hv (true, x) Es). Qed.
+
+Lemma parse_rename_all_group g : forallb cmeta_ok g = true -> count_rename_all g <= 1 -> (forall m, In m g -> ra_free m) ->
+  parse_rename_all (cgroup_string g) = match first_rename_all g with Some v => rule_of_str v | None => None end.
+Proof. intros Hok Hcnt Hfree. destruct key_ra_ok as (Hn & Hp & Hc).
+  unfold parse_rename_all. rewrite written_value_finish, cgroup_string_join. unfold find_key.
+  destruct (ra_split g) as [Ha|[pre [m [post [Hg [Hr Ha]]]]]].
+  - rewrite (key_scan_join_none _ Hn Hp Hc).
+    + rewrite (first_ra_none g Ha). reflexivity.
+    + intros x Hx. apply in_map_iff in Hx as [m [<- Hm]]. pose proof (Hfree m Hm (Ha m Hm)) as H. unfold key_occurs, find_key in H.
+      destruct (key_scan (L "rename_all") false (cmeta_text m)); [discriminate|reflexivity].
+  - subst g. assert (In m (pre ++ m :: post)) as Hin by (apply in_or_app; right; left; reflexivity).
+    assert (first_rename_all (pre ++ m :: post) = first_rename_all [m]) as Hfm.
+    { rewrite first_ra_app, (first_ra_none pre Ha). change (m :: post) with ([m] ++ post). rewrite first_ra_app.
+      destruct (first_rename_all [m]); [reflexivity|]. apply first_ra_none. apply count_ra_zero_none.
+      rewrite count_ra_app in Hcnt. change (m :: post) with ([m] ++ post) in Hcnt. rewrite count_ra_app in Hcnt.
+      assert (count_rename_all [m] = 1) as H1 by (unfold count_rename_all; cbn [filter]; rewrite Hr; reflexivity). lia. }
+    destruct (ra_scan m Hr (proj1 (forallb_forall _ _) Hok m Hin)) as (r & Hscan & Hfin).
+    rewrite map_app. cbn [map]. rewrite (key_scan_join _ Hn Hp Hc (map cmeta_text pre) _ r (map cmeta_text post)).
+    + rewrite Hfin, Hfm. reflexivity.
+    + intros x Hx. apply in_map_iff in Hx as [m0 [<- Hm]].
+      pose proof (Hfree m0 (in_or_app _ _ _ (or_introl Hm)) (Ha m0 Hm)) as H. unfold key_occurs, find_key in H.
+      destruct (key_scan (L "rename_all") false (cmeta_text m0)); [discriminate|reflexivity].
+    + exact Hscan. Qed.
 
 Lemma struct_attrs_groups gs ra : forallb cmeta_ok (concat gs) = true -> (forall m, In m (concat gs) -> ra_free m) ->
   count_rename_all (concat gs) <= 1 ->
   struct_attrs_go (map cgroup_string gs) ra =
-  match head_rename_all (concat gs) with Some v => rule_of_str v | None => ra end.
+  match first_rename_all (concat gs) with Some v => rule_of_str v | None => ra end.
 Proof. revert ra. induction gs as [|g gs IH]; intros ra Hok Hfree Hc; [reflexivity|].
   cbn [concat] in Hok, Hc, Hfree. rewrite forallb_app in Hok. apply andb_true_iff in Hok as [Hg Hgs]. rewrite count_ra_app in Hc.
-  cbn [map struct_attrs_go concat]. rewrite (parse_rename_all_group g Hg) by (intros m Hm; apply Hfree; apply in_or_app; left; exact Hm).
+  cbn [map struct_attrs_go concat]. rewrite (parse_rename_all_group g Hg); [|lia|intros m Hm; apply Hfree; apply in_or_app; left; exact Hm].
   rewrite IH; [|exact Hgs|intros m Hm; apply Hfree; apply in_or_app; right; exact Hm|lia].
-  rewrite head_ra_app. destruct (head_rename_all g) as [v|] eqn:Eg.
-  - destruct (head_rename_all (concat gs)) as [w|] eqn:Ew.
-    + apply head_ra_count in Eg. apply head_ra_count in Ew. lia.
-    + pose proof (head_ra_valid g v Hg Eg) as Hr. unfold valid_rule in Hr. destruct (rule_of_str v); [reflexivity|discriminate].
+  rewrite first_ra_app. destruct (first_rename_all g) as [v|] eqn:Eg.
+  - destruct (first_rename_all (concat gs)) as [w|] eqn:Ew.
+    + apply first_ra_count in Eg. apply first_ra_count in Ew. lia.
+    + pose proof (first_ra_valid g v Hg Eg) as Hr. unfold valid_rule in Hr. destruct (rule_of_str v); [reflexivity|discriminate].
   - reflexivity. Qed.
 
-Lemma head_ra_is_first g : forallb cmeta_ok g = true ->
-  (forall l, In (CRenameAllP l) g -> sd_bad l = false) -> head_rename_all g = first_rename_all g.
-Proof. induction g as [|m g IH]; intros Hok Hsd; [reflexivity|]. cbn [forallb] in Hok. apply andb_true_iff in Hok as [Hm Hok].
-  assert (head_rename_all g = first_rename_all g) as Hg by (apply IH; [exact Hok|intros l Hl; apply Hsd; right; exact Hl]).
-  destruct m as [v|l|n|n w]; cbn [head_rename_all first_rename_all]; try exact Hg; [reflexivity|].
-  cbn [cmeta_ok] in Hm. apply andb_true_iff in Hm as [Hm _]. rewrite (head_is_ser l Hm (Hsd l (or_introl eq_refl))), Hg. reflexivity. Qed.
-
-Lemma struct_attrs_container c : in_domain c = true -> kf_sd_first c = false -> kf_rename_all_text c = false ->
+Lemma struct_attrs_container c : in_domain c = true -> kf_rename_text c = false ->
   struct_attrs (map cgroup_string (c_attrs c)) = container_rule c.
-Proof. unfold in_domain. intros H Hsd Htext. apply andb_true_iff in H as [H _]. apply andb_true_iff in H as [H Hc]. apply andb_true_iff in H as [_ Hok].
+Proof. unfold in_domain. intros H Htext. apply andb_true_iff in H as [H _]. apply andb_true_iff in H as [H Hc]. apply andb_true_iff in H as [_ Hok].
   unfold struct_attrs, container_rule. rewrite struct_attrs_groups; [|exact Hok| |apply Nat.leb_le; exact Hc].
-  - rewrite (head_ra_is_first _ Hok).
-    + destruct (first_rename_all (concat (c_attrs c))); reflexivity.
-    + intros l Hl. unfold kf_sd_first in Hsd. apply orb_false_iff in Hsd as [Hsd _].
-      exact (existsb_false_in _ _ Hsd (CRenameAllP l) Hl).
-  - intros m Hm Hr. unfold kf_rename_all_text in Htext. pose proof (existsb_false_in _ _ Htext m Hm) as H1. cbn beta in H1.
-    rewrite Hr in H1. cbn [negb andb] in H1. exact H1. Qed.
+  - destruct (first_rename_all (concat (c_attrs c))); reflexivity.
+  - intros m Hm Hr. unfold kf_rename_text in Htext. apply orb_false_iff in Htext as [_ Htext].
+    pose proof (existsb_false_in _ _ Htext m Hm) as H1. cbn beta in H1. rewrite Hr in H1. cbn [negb andb] in H1. exact H1. Qed.
 
 (* ------------------------------------------------------------------ the renaming rules *)
 Definition all_bytes : list ascii := map (fun n => ascii_of_nat n) (seq 0 256).
